@@ -27,3 +27,5 @@ def run(chk):
     clones.rule_threshold_tests(chk, 'N3', floor=20)
     clones.rule_defuse(chk, 'D1', 'D2', ('cipher',), floor=50)
     clones.rule_tables(chk, 'N5', ('cipher',), floor=20)
+    from . import srcdst
+    srcdst.rule_out_reads(chk, cf.PROGRAM[0] or cf.Program(), 'O1', floor=150)
